@@ -1,4 +1,6 @@
 """C01 - results always reflect the object's current state (cache coherence)."""
+import os
+
 import numpy as np
 
 from props import families
@@ -214,6 +216,50 @@ def main(ctx):
         raise Machinery("the cache lookup hook reported no hit at all: NoStaleHit would be vacuous")
     ctx.validate("Val_C01", "Val_C01", recs, nontrivial=_nontrivial, xmx="4g")
     mechanism(ctx, cases)
+    if ctx.tier == "thorough" or os.environ.get("VERIF_SUITE_TAP"):
+        suite_under_hook(ctx)
+
+
+def suite_under_hook(ctx):
+    """The repository's own tests (all but the tests of the caching mix-in itself, whose toy classes are impure
+    on purpose) run on the overlay with the lookup hook in shadow mode; one record per test; Val_Suite decides
+    NoStaleHit.  A run without a single hit is a machinery failure."""
+    import glob
+    import json
+    import os
+    import subprocess
+    from vlib import overlay as ov
+    from vlib.core import Machinery
+    out = os.path.join(ctx.work, "suite_tap")
+    env = ctx.env() if hasattr(ctx, "env") else dict(os.environ)
+    env["VERIF_TAP_OUT"] = out
+    env["PYUNICORN_VERIF"] = "1"
+    env["PYTHONPATH"] = os.path.join(ctx.ensure_overlay(), "src") + os.pathsep + os.path.dirname(os.path.dirname(os.path.abspath(__file__)))
+    tests = os.path.join(ov.REPO, "tests")
+    cmd = ["/venv/bin/python", "-m", "pytest", "-q", "-p", "vlib.pytest_tap", "-p", "no:cacheprovider", "-n", "8",
+           "--timeout=900", tests, "--ignore=" + os.path.join(tests, "test_climate", "test_map_plot.py"),
+           "--ignore=" + os.path.join(tests, "test_core", "test_cache.py"), "--rootdir=" + ov.REPO]
+    p = subprocess.run(cmd, cwd=ov.REPO, env=env, stdout=subprocess.PIPE, stderr=subprocess.STDOUT, text=True)
+    merged = {}
+    for f in glob.glob(out + ".*.json"):          # (xdist: the controller re-emits every report with empty counts)
+        for r in json.load(open(f)):
+            m = merged.setdefault(r["test"], {"test": r["test"], "hits": 0, "misses": 0, "stale": []})
+            m["hits"] += r["hits"]
+            m["misses"] += r["misses"]
+            m["stale"] += r["stale"]
+    recs = [merged[k] for k in sorted(merged)]
+    tail = p.stdout.strip().splitlines()[-1] if p.stdout.strip() else ""
+    if not recs:
+        raise Machinery("suite under the lookup hook produced no records:\n" + p.stdout[-1500:])
+    hits = sum(r["hits"] for r in recs)
+    if hits == 0:
+        raise Machinery("suite under the lookup hook: no cache hit at all (hook not active?)")
+    ctx.stages.append({"stage": "RUN repository test suite under the lookup hook (shadow mode)", "tests": len(recs),
+                       "cache_hits_shadow_evaluated": hits, "misses": sum(r["misses"] for r in recs),
+                       "pytest": tail[:160]})
+    for k, r in enumerate(recs):
+        r["case"] = "t%d" % k
+    ctx.validate("Val_Suite", "Val_Suite", recs, stage="Val_Suite", nontrivial=lambda r: r["hits"] > 0)
 
 
 def mechanism(ctx, cases):
